@@ -93,8 +93,7 @@ Record ops : Type := {
   d_goback : D -> D;                     (* Parser::goback's effect on the comment state *)
   d_drain : D -> C * D;                  (* drain_comments *)
   (* line_end_comment: the field's docs come back with the trailing comment pushed, if any *)
-  (* ... and the end of that trailing comment (where the following Parser::next starts from) *)
-  d_line_end : D -> A -> G -> option A -> C -> C * G * D * option A;
+  d_line_end : D -> A -> G -> option A -> C -> C * G * D;
   c_empty : C;
   a_plus2 : A -> A                       (* pos + 2 in parse_go_stmt / parse_defer_stmt *)
 }.
@@ -272,7 +271,9 @@ Definition skipped (k : tkind) (s : pstate) : res bool :=
 Definition drain (s : pstate) : C * pstate :=
   let '(c, d) := d_drain OPS (s_d s) in (c, upd_d s d).
 
-(* Parser::line_end_comment.  When the token after ';' is the end of input the
+(* Parser::line_end_comment.  When the trailing comment is taken, the Parser::next that
+   follows starts from the end of that comment: the policy remembers that in its own state
+   (the core never sees it).  When the token after ';' is the end of input the
    Rust code leaves ';' current and the caller's skipped(';') moves on; here the
    move happens at once (same resulting state, see DESIGN 3.4). *)
 Definition line_end_comment (c : C) (s : pstate) : res C :=
@@ -281,19 +282,17 @@ Definition line_end_comment (c : C) (s : pstate) : res C :=
     let semi := cur_pos s in
     match s_rest s with
     | SE a0 a1 t g :: r =>
-        let '(c', g', d', ce) := d_line_end OPS (s_d s) semi g (Some a0) c in
-        let pe := match ce with Some e => Some e | None => Some (s_spos s) end in
+        let '(c', g', d') := d_line_end OPS (s_d s) semi g (Some a0) c in
         Ok c' {| s_cur := Some (a0, t); s_rest := r; s_mark := s_rest s; s_term := s_term s;
                  s_spos := a1; s_lp := s_lp s; s_ln := s_ln s;
-                 s_d := d_next OPS d' pe g' (Some a0); s_started := true; s_depth := s_depth s |}
+                 s_d := d_next OPS d' (prev_end s) g' (Some a0); s_started := true; s_depth := s_depth s |}
     | [] =>
         match s_term s with
         | TEof a g =>
-            let '(c', g', d', ce) := d_line_end OPS (s_d s) semi g None c in
-            let pe := match ce with Some e => Some e | None => Some (s_spos s) end in
+            let '(c', g', d') := d_line_end OPS (s_d s) semi g None c in
             Ok c' {| s_cur := None; s_rest := []; s_mark := []; s_term := s_term s;
                      s_spos := a; s_lp := s_lp s; s_ln := s_ln s;
-                     s_d := d_next OPS d' pe g' None; s_started := true; s_depth := s_depth s |}
+                     s_d := d_next OPS d' (prev_end s) g' None; s_started := true; s_depth := s_depth s |}
         | TErr e g =>
             Err (PScan e)
                 {| s_cur := s_cur s; s_rest := []; s_mark := []; s_term := s_term s;
@@ -1882,7 +1881,7 @@ Definition step : parsers :=
      k_expr := expr_body;
      k_unary := nested 141 unary_body;
      k_binary := binary_body;
-     k_litvalue := lit_value_body;
+     k_litvalue := nested 144 lit_value_body;
      k_block := block_body;
      k_stmt := nested 142 stmt_body;
      k_if := nested 143 if_body |}.
